@@ -120,6 +120,7 @@ type WorkerOut struct {
 	Faults       map[string]int    `json:"faults"`
 	Strategies   map[string]int    `json:"strategies"`
 	Hashes       []uint64          `json:"hashes"`
+	Scheds       []uint64          `json:"scheds"`
 	States       []uint64          `json:"states"`
 	Pairs        []string          `json:"pairs"`
 	Violations   []ViolOut         `json:"violations"`
@@ -165,6 +166,7 @@ func RunWorker(a WorkerArgs) int {
 	deadline := start.Add(time.Duration(a.Seconds * float64(time.Second)))
 	out := &WorkerOut{World: w.Name, Verdicts: map[string]int{}, Probes: map[string]int{}, Faults: map[string]int{}, Strategies: map[string]int{}}
 	hashes := map[uint64]struct{}{}
+	scheds := map[uint64]struct{}{}
 	states := map[uint64]struct{}{}
 	pairs := map[string]struct{}{}
 	seenSig := map[string]int{}
@@ -220,6 +222,9 @@ func RunWorker(a WorkerArgs) int {
 			out.Nontrivial++
 			if len(hashes) < maxSet {
 				hashes[res.Hash] = struct{}{}
+			}
+			if w.Concurrent && len(scheds) < maxSet {
+				scheds[res.SchedHash] = struct{}{}
 			}
 		}
 		if res.LeakPanic != "" && len(out.HarnessErrs) < 5 {
@@ -301,6 +306,9 @@ func RunWorker(a WorkerArgs) int {
 	}
 	for h := range hashes {
 		out.Hashes = append(out.Hashes, h)
+	}
+	for h := range scheds {
+		out.Scheds = append(out.Scheds, h)
 	}
 	for h := range states {
 		out.States = append(out.States, h)
@@ -466,6 +474,7 @@ func RunCoord(a CoordArgs) int {
 	var g agg
 	verdicts, probes, faults, strategies := map[string]int{}, map[string]int{}, map[string]int{}, map[string]int{}
 	hashes, states, pairs := map[uint64]struct{}{}, map[uint64]struct{}{}, map[string]struct{}{}
+	scheds := map[uint64]struct{}{}
 	var samples []Sample
 	var herrs []string
 	detN, detBad, sibling := 0, 0, 0
@@ -491,6 +500,9 @@ func RunCoord(a CoordArgs) int {
 		}
 		for _, h := range o.Hashes {
 			hashes[h ^ sim.MixString(o.World)] = struct{}{}
+		}
+		for _, h := range o.Scheds {
+			scheds[h^sim.MixString(o.World)] = struct{}{}
 		}
 		for _, h := range o.States {
 			states[h ^ sim.MixString(o.World)] = struct{}{}
@@ -583,6 +595,7 @@ func RunCoord(a CoordArgs) int {
 		"nontrivial_runs":      g.nontrivial,
 		"distinct_histories":   len(hashes),
 		"distinct_states":      len(states),
+		"distinct_schedules":   len(scheds),
 		"steps":                g.steps,
 		"context_switches":     g.switches,
 		"switch_pair_coverage": len(pairs),
